@@ -134,7 +134,20 @@ def otherCallAllow : List Gen.OtherCall := [
   ⟨"pkg/interp", "builtinFS", "embed.FS.Open", "value", "run"⟩
 ]
 
-theorem other_calls_ok : ∀ c ∈ Gen.otherCalls, c ∈ otherCallAllow := by decide
+/-- the `encoding/binary` byte orders are justified by what they ARE (zero-size stateless structs whose
+    value-receiver methods only touch their argument slice), not by where they are used: a new use in another
+    package (the tar base-256 fix added one in format/tar) needs no new entry.  The method must be one of the
+    read/write accessors listed. -/
+def statelessByteOrderCall (c : Gen.OtherCall) : Bool :=
+  c.kind == "value" &&
+  ((c.var == "encoding/binary.BigEndian" &&
+      c.method ∈ ["encoding/binary.bigEndian.Uint16", "encoding/binary.bigEndian.Uint32", "encoding/binary.bigEndian.Uint64",
+        "encoding/binary.bigEndian.PutUint16", "encoding/binary.bigEndian.PutUint32", "encoding/binary.bigEndian.PutUint64"]) ||
+   (c.var == "encoding/binary.LittleEndian" &&
+      c.method ∈ ["encoding/binary.littleEndian.Uint16", "encoding/binary.littleEndian.Uint32", "encoding/binary.littleEndian.Uint64",
+        "encoding/binary.littleEndian.PutUint16", "encoding/binary.littleEndian.PutUint32", "encoding/binary.littleEndian.PutUint64"]))
+
+theorem other_calls_ok : ∀ c ∈ Gen.otherCalls, c ∈ otherCallAllow ∨ statelessByteOrderCall c = true := by decide
 
 /-- no method of an INTERFACE-typed package-level variable is selected anywhere outside init -/
 theorem no_iface_calls : ∀ c ∈ Gen.otherCalls, c.kind ≠ "iface" := by decide
